@@ -32,7 +32,7 @@ try:
     checks = (a.checks.split(',') if a.checks else [a.prop])
     caught = {}
     for c in checks:
-        o = sh('cd /verif && VERIF_REPO=%s ./check %s --tier quick' % (wt, c))
+        o = sh('cd %s && VERIF_REPO=%s ./check %s --tier quick' % (os.environ.get('KEEPMUT_HOME', '/verif'), wt, c))
         sigs = [l.strip()[4:] for l in o.stdout.split('\n') if l.strip().startswith('sig=')]
         caught[c] = dict(exit=o.returncode, violations=o.stdout.count('\nVIOLATION') + (1 if o.stdout.startswith('VIOLATION') else 0), first_signatures=sigs[:3])
     sh('git -C %s checkout -- .' % wt)
